@@ -189,3 +189,12 @@ package types
 // (assumption for user-supplied EntityGetters).
 //@ func (EntityGetter) Get
 //@   pure
+
+//@ sweep C10 entity_uid.go pattern.go
+// NewPattern panics on components of a wrong Go type by documented design
+// (programmer API, not a decoder).
+//@ func NewPattern
+//@   nosafety
+//@ func (Pattern) Match
+//@   loop 1.1
+//@     invariant 0 <= i
